@@ -337,6 +337,7 @@ fn sim_thread(t: usize, s: Arc<Sched>, keep_log: bool) {
             panic_msg,
             canary,
             calls: ctx.seq,
+            log_points: ctx.log_points,
             log_digest: digest_strs(&ctx.log),
             clock_calls: ctx.clock_calls,
             pid_calls: ctx.pid_calls,
@@ -382,9 +383,30 @@ fn sim_thread(t: usize, s: Arc<Sched>, keep_log: bool) {
     }
 }
 
+/// The library logs through the `log` facade (trace!/info! in the unifier, the constraint
+/// builder, between the stages).  The executor installs a sink that prints nothing and makes
+/// every log statement a scheduling point: the interleaving scheduler can then switch threads
+/// in the middle of type checking, not only at libc calls.
+struct SchedLogger;
+
+impl log::Log for SchedLogger {
+    fn enabled(&self, _: &log::Metadata) -> bool {
+        true
+    }
+    fn log(&self, _: &log::Record) {
+        simlibc::sched_point();
+    }
+    fn flush(&self) {}
+}
+
+static SCHED_LOGGER: SchedLogger = SchedLogger;
+
 pub fn exec_jobs(sc: &C12Scenario, keep_log: bool) -> JobsResult {
     install_panic_hook();
     simlibc::set_bypass(true);
+    if log::set_logger(&SCHED_LOGGER).is_ok() {
+        log::set_max_level(log::LevelFilter::Trace);
+    }
     let stub = stub_dir();
     let nthreads = sc.threads.len();
     let sched = Arc::new(Sched {
